@@ -82,6 +82,11 @@ func buildAndRender(seed uint64, styles []string) []string {
 	for _, s := range styles {
 		rec(auto.Render(t, s))
 	}
+	// the registry is read while others render: listings too
+	if l := auto.ListStyles(); !sort.StringsAreSorted(l) {
+		out = append(out, "UNSORTED-LISTING")
+	}
+	_ = decoration.RegisteredDecorationNames()
 	nested := texttable.Wrap(csv.Wrap(markdown.Wrap(t)))
 	rec(nested.Render())
 	return out
@@ -103,8 +108,9 @@ func raceC16(seed int64, workers, rounds int) raceReport {
 		want := make([][]string, workers)
 		for i := range seeds {
 			seeds[i] = mixSeed(seed, "race16", round*1000+i)
-			want[i] = buildAndRender(seeds[i], styles) // alone, sequentially
 		}
+		// a registration before the goroutines start: whatever the registry caches is stale when they read it
+		decoration.RegisterDecorationName(fmt.Sprintf("race16-%d", round), decoration.ASCIIBoxSimple())
 		got := make([][]string, workers)
 		var wg sync.WaitGroup
 		start := make(chan struct{})
@@ -128,6 +134,9 @@ func raceC16(seed int64, workers, rounds int) raceReport {
 		}()
 		close(start)
 		wg.Wait()
+		for i := range seeds {
+			want[i] = buildAndRender(seeds[i], styles) // the same tables alone, sequentially
+		}
 		for i := range got {
 			rep.Renders += len(got[i])
 			if strings.Join(got[i], "\x00") != strings.Join(want[i], "\x00") {
